@@ -111,7 +111,9 @@ def directed_pairs():
     tk = ('key',)
     keys = [('key', 'Ed', X), ('key', 'Secp', b'\x02' + X), ('key', 'Secp', b'\x03' + X), ('key', 'P256', b'\x02' + X),
             ('key', 'P256', b'\x03' + X), ('key', 'P256', b'\x03' + bytes(32)), ('key', 'P256', b'\x02' + bytes([255] * 32)),
-            ('key', 'Bls', bytes(48)), ('key', 'Bls', bytes([1] * 48))]
+            ('key', 'Bls', bytes(48)), ('key', 'Bls', bytes([1] * 48)),
+            ('key', 'Secp', b'\x03' + bytes(32)), ('key', 'Secp', b'\x02' + bytes([255] * 32)),
+            ('key', 'Ed', bytes([255]) + bytes(31)), ('key', 'Ed', bytes(31) + bytes([255]))]
     for a in keys:
         for b in keys:
             out.append((tk, a, b))
